@@ -342,7 +342,8 @@ def _judge_faithful(ctx, path, Sy, Sval, Svec, inp):
         s = _svals(Sy[:, :, k])
         # squares of stored values are the singular values; rows are conj of left singular vectors:
         # W conj?  W = U^H  =>  W Sy Sy^H W^H = diag(S^2) (padded with zeros)
-        if np.abs(d**2 - s).max() > 1e-8 * max(s[0], 1e-300):
+        # the independent route (eigenvalues of M^H M) squares the condition number: its own error is ~sqrt(eps)*s_max
+        if np.abs(d**2 - s).max() > 1e-6 * max(s[0], 1e-300):
             ctx.violation("sval-not-sqrt-singular", f"{path}: stored values squared differ from singular values at line {k}", inp, observed=(d**2).tolist(), expected=s.tolist())
             return
         G = W @ Sy[:, :, k] @ Sy[:, :, k].conj().T @ W.conj().T
